@@ -10,7 +10,8 @@ RULE = ('(i) the message sequences of C08 (exhaustive to length 2/3 + random, 7 
         'the C09 oracle: required SASL => no CAP END / CONNECTED without success; STS over an insecure link => the first driver action is '
         'reconnect(host, policy port, verification forced) and nothing is stored; a policy is stored only on a verified link; '
         '(ii) ServersMixin._applyStsPolicy on the real networks store for policy strings x stored ages x disconnect histories x clocks; '
-        '(ii-b) histories of store-policy / record-disconnection / _getNextServer events on a real ServersMixin with several entries and repeated '
+        '(ii-b) histories of store-policy / record-disconnection / _getNextServer / restart (networks.conf flushed and re-read with a fresh '
+        'NetworksDictionary; oracle against the policies the server side stored, not the bot\'s store) events on a real ServersMixin with several entries and repeated '
         'hostnames, every step replayed on the model, every returned server checked against the store; '
         '(iii) SocketDriver.starttls verification choice for all 16 settings.  non-trivial = distinct step / store state')
 TRUSTED = c08.TRUSTED + ['the TLS handshake (utils.net.ssl_wrap_socket) is not modelled: only the `verify` argument it is called with',
@@ -192,6 +193,11 @@ def run_apply(ctx, mods):
 MIX_HOSTS = ['irc.example.org', 'alt.example.net']
 MIX_POLS = ['port=6697,duration=300', 'duration=100,port=7000', 'port=6697,duration=0', 'port=1,duration=1000000', 'port=x,duration=3']
 MIX_CORPUS = [
+    # a restart between storing the policy and the next connection: the policy must survive networks.conf
+    {'conf': [['irc.example.org', 6667]],
+     'evs': [[2, 1000], [0, 'irc.example.org', 'port=6697,duration=3600'], [1, 1010, 'irc.example.org'], [3], [2, 1020], [3], [2, 2000], [2, 9000]]},
+    {'conf': [['irc.example.org', 6667], ['alt.example.net', 6667]],
+     'evs': [[0, 'irc.example.org', 'port=6697,duration=300'], [0, 'alt.example.net', 'duration=100,port=7000'], [3], [2, 5], [2, 6], [1, 7, 'alt.example.net'], [3], [2, 50], [2, 60], [2, 400]]},
     # the seeded-change scenario: two entries for one host, the policy is stored while the second entry is already loaded
     {'conf': [['irc.example.org', 6667], ['irc.example.org', 8000]],
      'evs': [[2, 1000], [0, 'irc.example.org', 'port=6697,duration=300'], [1, 1010, 'irc.example.org'], [2, 1020], [2, 1030], [2, 1400]]},
@@ -211,64 +217,94 @@ def gen_mix(rng):
             evs.append([0, rng.choice(MIX_HOSTS), rng.choice(MIX_POLS[:4] if rng.random() < 0.93 else MIX_POLS)])
         elif r < 0.45:
             evs.append([1, now, rng.choice(MIX_HOSTS)])
+        elif r < 0.55:
+            evs.append([3])
         else:
             evs.append([2, now])
     return {'conf': conf, 'evs': evs}
 
 
 def run_mixin_history(ctx, mods, h, model=True):
-    """drive a real ServersMixin + the real networks store through the history; returns (steps for the model diff, failures)"""
+    """drive a real ServersMixin + the real networks store through the history (events: 0 store a policy, 1 record a disconnection,
+    2 _getNextServer, 3 restart = flush networks.conf, read it back with a fresh NetworksDictionary, new ServersMixin);
+    returns (steps for the model diff, failures)"""
+    import os, tempfile
     irclib, conf, ircmsgs, ircutils, ircdb, drivers = mods
-    net = ircdb.networks.getNetwork('test')
-    saved = (dict(net.stsPolicies), dict(net.lastDisconnectTimes), drivers.time.time, ircdb.time.time)
+    nd = ircdb.networks
+    saved_nd = (nd.networks, nd.filename, nd.noFlush)
+    saved_time = (drivers.time.time, ircdb.time.time)
     wconf = [[hh, pp, 0, False] for hh, pp in h['conf']]
+    tmpdir = tempfile.mkdtemp(prefix='nets_', dir=os.getcwd())
 
     class Group:
         _name = 'supybot.networks.test'
 
         def servers(self):
             return [drivers.Server(hh, pp, 0, False) for hh, pp in h['conf']]
-    mixin = drivers.ServersMixin.__new__(drivers.ServersMixin)
-    mixin.networkName, mixin.networkGroup, mixin.servers = 'test', Group(), []
+
+    def new_mixin():
+        m = drivers.ServersMixin.__new__(drivers.ServersMixin)
+        m.networkName, m.networkGroup, m.servers = 'test', Group(), []
+        return m
+    box = {'mixin': new_mixin()}
     steps, fails = [], []
+    # what the SERVER side knows it stored / when the bot disconnected: the oracle does not read the bot's store
+    exp_pol, exp_last = {}, {}
+
+    def net():
+        return ircdb.networks.getNetwork('test')
 
     def snap():
+        mixin = box['mixin']
         cur = getattr(mixin, 'currentServer', None)
-        return ([[[k, v] for k, v in net.stsPolicies.items()], [[k, v] for k, v in net.lastDisconnectTimes.items()]],
+        return ([[[k, v] for k, v in net().stsPolicies.items()], [[k, v] for k, v in net().lastDisconnectTimes.items()]],
                 [[[x.hostname, x.port, x.attempt, bool(x.force_tls_verification)] for x in mixin.servers],
                  wire.opt(None if cur is None else [cur.hostname, cur.port, cur.attempt, bool(cur.force_tls_verification)])])
     try:
-        net.stsPolicies.clear(); net.lastDisconnectTimes.clear()
+        nd.networks = ircutils.IrcDict()
+        nd.filename, nd.noFlush = os.path.join(tmpdir, 'networks.conf'), False
         for i, e in enumerate(h['evs']):
             bnet, bmix = snap()
             res = None
             if e[0] == 0:
-                net.addStsPolicy(e[1], e[2])
+                net().addStsPolicy(e[1], e[2])
+                exp_pol[e[1]] = e[2]
             elif e[0] == 1:
                 ircdb.time.time = lambda t=e[1]: t
-                net.addDisconnection(e[2])
+                net().addDisconnection(e[2])
+                exp_last[e[2]] = e[1]
+            elif e[0] == 3:
+                # restart: what a clean shutdown writes is what the next process reads
+                nd.flush()
+                fresh = ircdb.NetworksDictionary()
+                fresh.open(nd.filename)
+                nd.networks = fresh.networks
+                box['mixin'] = new_mixin()
             else:
                 drivers.time.time = lambda t=e[1]: t
                 try:
-                    r = mixin._getNextServer()
+                    r = box['mixin']._getNextServer()
                     res = ('ok', [r.hostname, r.port, r.attempt, bool(r.force_tls_verification)])
                 except Exception as ex:
                     res = ('raise', type(ex).__name__)
                 # the property, directly: an unexpired stored policy for the host of the returned server => its port, verification forced
                 if res[0] == 'ok':
-                    pol = dict(map(tuple, bnet[0])).get(res[1][0])
-                    last = dict(map(tuple, bnet[1])).get(res[1][0])
+                    host = res[1][0]
+                    pol, last = exp_pol.get(host), exp_last.get(host)
                     rp = ref_policy(pol, True) if pol is not None else None
-                    if rp is not None and (last is None or e[1] <= last + rp[1]) and (res[1][1] != rp[0] or not res[1][3]):
+                    if rp is not None and last is not None and last + rp[1] < e[1]:
+                        del exp_pol[host]          # expired: the bot is right to forget it
+                    elif rp is not None and (res[1][1] != rp[0] or not res[1][3]):
                         fails.append({'step': i, 'kind': 'sts-connection-not-upgraded',
-                                      'detail': '_getNextServer returned %r at clock %r although the policy %r is stored for that host (last disconnection %r)'
-                                                % (res[1], e[1], pol, last)})
+                                      'detail': '_getNextServer returned %r at clock %r although the policy %r was stored for that host (last disconnection %r) '
+                                                'and has not expired' % (res[1], e[1], pol, last)})
             anet, amix = snap()
             steps.append((wconf, bnet, bmix, e, anet, amix, res))
     finally:
-        net.stsPolicies.clear(); net.stsPolicies.update(saved[0])
-        net.lastDisconnectTimes.clear(); net.lastDisconnectTimes.update(saved[1])
-        drivers.time.time, ircdb.time.time = saved[2], saved[3]
+        nd.networks, nd.filename, nd.noFlush = saved_nd
+        drivers.time.time, ircdb.time.time = saved_time
+        import shutil
+        shutil.rmtree(tmpdir, True)
     return steps, fails
 
 
@@ -283,14 +319,14 @@ def run_mixin(ctx, mods):
     outs = ctx.model([[4, [w, bn, bm, e]] for h, (w, bn, bm, e, an, am, res) in allsteps])
     for (h, (w, bn, bm, e, an, am, res)), mo in zip(allsteps, outs):
         inp = {'mix': {'conf': h['conf']}, 'net': bn, 'mixin': bm, 'event': e}
-        ctx.case('servers-%s' % ['store', 'disconnect', 'next'][e[0]], inp)
+        ctx.case('servers-%s' % ['store', 'disconnect', 'next', 'restart'][e[0]], inp)
         if mo is None:
             continue
         sv = lambda v: [wire.s(v[0]), v[1], v[2], bool(v[3])]
         mnet = [[[wire.s(x[0]), wire.s(x[1])] for x in mo[0][0]], [[wire.s(x[0]), x[1]] for x in mo[0][1]]]
         mmix = [[sv(x) for x in mo[1][0]], wire.opt(wire.o(mo[1][1], sv))]
         mres = wire.o(mo[2], lambda v: wire.r(v, sv))
-        if mnet != an or mmix != am or mres != res:
+        if [sorted(x) for x in mnet] != [sorted(x) for x in an] or mmix != am or mres != res:      # a restart re-reads the store in file (sorted) order
             ctx.disagree(inp, [mnet, mmix, mres], [an, am, res], 'ServersMixin / store step')
 
 
